@@ -115,6 +115,16 @@ func (m *Machine) Inconclusive(id, reason string) {
 	m.Inconclusives = append(m.Inconclusives, Inconclusive{id, reason})
 }
 
+// checkDeadline ends the current path (inconclusive) once the deadline has
+// passed; called before every solver query so that a path made of many slow
+// queries cannot overrun the budget.
+func (m *Machine) checkDeadline() {
+	if !m.Deadline.IsZero() && time.Now().After(m.Deadline) {
+		m.Inconclusive("explore", "deadline reached inside a path")
+		m.EndPath("deadline")
+	}
+}
+
 // Explore runs body once per feasible path.
 func (m *Machine) Explore(body func()) {
 	m.work = [][]bool{nil}
@@ -185,6 +195,7 @@ func (m *Machine) Feasible(c *smt.Term) bool {
 	if r, ok := m.feasCache[k]; ok {
 		return r != smt.Unsat
 	}
+	m.checkDeadline()
 	r, mod := m.S.Check(append(append([]*smt.Term{}, m.PC...), c), true)
 	m.feasCache[k] = r
 	if r == smt.Sat && mod != nil {
@@ -299,6 +310,9 @@ func (m *Machine) NDecisions() int { return m.pos }
 // Assert checks that c holds on every input reaching here; a violation is
 // recorded with its model.  Execution continues under the assumption c.
 func (m *Machine) Assert(c *smt.Term, id, msg, kind string) bool {
+	if !c.IsTrue() {
+		m.checkDeadline()
+	}
 	m.Obligations++
 	st := m.OblIDs[id]
 	if st == nil {
